@@ -224,6 +224,10 @@ func (e *Exec) evalExternal(call *ast.CallExpr, st *State, ctx *Ctx) []string {
 		return []string{"(trimSuffix " + s + " " + p + ")"}
 	case "strings.Trim":
 		return []string{"(strTrim " + arg(0) + " " + arg(1) + ")"}
+	case "strings.TrimRight":
+		return []string{"(strTrimRight " + arg(0) + " " + arg(1) + ")"}
+	case "strings.TrimLeft":
+		return []string{"(strTrimLeft " + arg(0) + " " + arg(1) + ")"}
 	case "strings.ReplaceAll":
 		return []string{"(str.replace_all " + arg(0) + " " + arg(1) + " " + arg(2) + ")"}
 	case "strings.Split":
